@@ -209,9 +209,9 @@ static void asan_cb(const char *report) {
   // frames of the first stack; with symbolize=1: "    #k 0xPC in FUNC FILE:LINE:COL"
   std::string where = "?";
   size_t pos = rep.find("    #0 0x");
-  int k = 0;
+  int k = 0, nchain = 0;
   std::string chain;
-  while (pos != std::string::npos && k < 14) {
+  while (pos != std::string::npos && k < 20) {
     size_t nl = rep.find('\n', pos);
     std::string line = rep.substr(pos, (nl == std::string::npos ? rep.size() : nl) - pos);
     std::string fn, file;
@@ -231,7 +231,7 @@ static void asan_cb(const char *report) {
     bool lib = !file.empty() && file.compare(0, 5, "/usr/") != 0 && file.find("/harness/") == std::string::npos &&
                file.find("compiler-rt") == std::string::npos && file.find("/sched/") == std::string::npos;
     if (lib && where == "?") where = short_fn(fn);
-    if (k < 5) { chain += (k ? " < " : ""); chain += short_fn(fn); }
+    if (lib && nchain < 5) { chain += (nchain ? " < " : ""); chain += short_fn(fn); nchain++; }
     if (nl == std::string::npos) break;
     char nxt[16];
     snprintf(nxt, sizeof nxt, "    #%d 0x", k + 1);
